@@ -36,11 +36,11 @@ type cliEnv struct {
 }
 
 type cliResult struct {
-	Args   []string
-	Out    string
-	Err    string
-	Exit   int
-	Panic  bool
+	Args  []string
+	Out   string
+	Err   string
+	Exit  int
+	Panic bool
 }
 
 func (c *cliEnv) run(timeout time.Duration, args ...string) cliResult {
